@@ -434,6 +434,8 @@ def load_known_findings(pid):
 
 def write_evidence(pid, tier, seed, level, coverage, wall, violations=0, assumptions=None):
     edir = os.path.join(WORK, "evidence") if os.environ.get("VERIF_WORK") else os.path.join(VERIF, "evidence")
+    if pid.startswith("G-"):
+        edir = os.path.join(edir, "growth")      # growth families (no listed property)
     os.makedirs(edir, exist_ok=True)
     ev = {"property_id": pid, "tier": tier, "seed": int(seed), "level": level, "coverage": coverage,
           "assumptions": assumptions or [], "wall_s": round(wall, 2), "violations": int(violations)}
@@ -642,25 +644,33 @@ def finish(o, level, rule, assumptions, extra_cov=None):
     return 0
 
 
-def binding_selftest(o, family, module, cfg, traces, mutators, *, timeout=600):
+def binding_selftest(o, family, module, cfg, traces, mutators, *, timeout=600, candidates=8):
     """Negative controls for the binding: each mutator corrupts one recorded field / drops one event of an
-    accepted trace; the corrupted trace must be rejected by the trace spec.  A control that is accepted means
-    the trace spec constrains too little -> infrastructure failure (exit 2), never silently ignored."""
-    bad = []
-    names = []
-    for name, fn in mutators:
+    accepted trace; the corrupted trace must be rejected by the trace spec.  A mutator is applied to up to
+    `candidates` different recorded traces (a corruption of one particular trace can happen to be another valid
+    behaviour); the control passes when at least one of them is rejected.  A control for which EVERY corrupted
+    candidate is accepted means the trace spec constrains too little -> infrastructure failure (exit 2)."""
+    bad, owner = [], []
+    for k, (name, fn) in enumerate(mutators):
+        n = 0
         for t in traces:
             m = fn(json.loads(json.dumps(t)))
             if m is not None:
                 bad.append(m)
-                names.append(name)
-                break
+                owner.append(k)
+                n += 1
+                if n >= candidates:
+                    break
     if not bad:
         return
     v = validate_traces(o.pid, family, module, cfg, bad, timeout=timeout)
     rejected = {i for i, _, _ in v.rejected}
-    for i, name in enumerate(names):
-        ok = i in rejected
-        o.selftests.append({"control": name, "rejected_as_required": ok})
-        if not ok:
-            raise Infra("binding self-test failed: corrupted trace (%s) was accepted by %s/%s" % (name, module, cfg))
+    for k, (name, _) in enumerate(mutators):
+        mine = [i for i, ow in enumerate(owner) if ow == k]
+        if not mine:
+            continue
+        nrej = sum(1 for i in mine if i in rejected)
+        o.selftests.append({"control": name, "candidates": len(mine), "rejected": nrej, "rejected_as_required": nrej > 0})
+        if nrej == 0:
+            raise Infra("binding self-test failed: %d corrupted traces (%s) were all accepted by %s/%s"
+                        % (len(mine), name, module, cfg if isinstance(cfg, str) else "(per-trace cfg)"))
